@@ -71,7 +71,17 @@ func newDataStoreSet(l lane.Lane, basePath string, phook *atomic.Pointer[Dispatc
 
 func (dss *dataStoreSet) save(l lane.Lane) error {
 	verifPoint("saveall:begin", 0, dss.basePath)
+
+	// SELECT of a new database adds to the map (under dss.mu) while the periodic saver runs:
+	// iterate over a copy taken under the lock, keyed by database number
+	dss.mu.Lock()
+	dbs := make(map[int]*dataStore, len(dss.dbs))
 	for index, ds := range dss.dbs {
+		dbs[index] = ds
+	}
+	dss.mu.Unlock()
+
+	for index, ds := range dbs {
 		dsc := ds.newDataStoreCommand()
 		err := dsc.save(l, dss.dataStoreFileName(index))
 		if err != nil {
